@@ -18,6 +18,10 @@ pub const TRANSPARENT: &[(&str, &str, bool)] = &[
     ("agg_vmean_var", " src=owned mp=1", false), ("agg_vvar", " src=owned mp=2", false), ("agg_vstd", " src=owned mp=1", false),
     ("agg_vskew", " src=owned mp=1", false), ("agg_vkurt", " src=owned mp=1", false),
     ("agg_vcov", " src=owned mp=1", true), ("agg_vcorr_pearson", " src=owned mp=1", true),
+    // masked aggregations: the second series is the mask (`ms=`; an inserted 7 is a true flag, so a
+    // null value under a true flag, a value under a null flag and a null under a null flag all occur)
+    ("agg_n_vsum_filter", " mt=obool src=owned mp=0 ms", true), ("agg_n_sum_filter", " mt=obool src=owned mp=0 ms", true),
+    ("agg_vmean_filter", " mt=obool src=owned mp=1 ms", true),
     ("vquantile", " q=1/4 m=linear", false), ("vquantile", " q=3/4 m=midpoint", false), ("vmedian", "", false),
     ("vpercentile_of", " s=1 m=rank", false), ("vpercentile_of", " s=2 m=weak", false),
     // per-element ranks: the ranks of the valid elements (nulls dropped) must not change
@@ -44,13 +48,13 @@ pub fn insert_nulls(base: &[&str], mask: &str, first: bool) -> Vec<String> {
 fn inner(r: &Req, xs: &[String], ys: Option<&[String]>) -> Req {
     let mut q = Req::parse(r.s("f"));
     for k in &r.order {
-        if !matches!(k.as_str(), "f" | "xs" | "ys" | "ins") {
+        if !matches!(k.as_str(), "f" | "xs" | "ys" | "ms" | "ins") {
             q.set(k, r.kv[k].clone());
         }
     }
     q.set("xs", join(xs));
     if let Some(ys) = ys {
-        q.set("ys", join(ys));
+        q.set(if r.has("ms") { "ms" } else { "ys" }, join(ys));
     }
     q
 }
@@ -80,8 +84,8 @@ pub fn run(r: &Req) -> Option<String> {
         return None;
     }
     let xs: Vec<String> = r.list("xs").iter().map(|s| s.to_string()).collect();
-    let two = r.has("ys");
-    let ys: Vec<String> = r.list("ys").iter().map(|s| s.to_string()).collect();
+    let two = r.has("ys") || r.has("ms");
+    let ys: Vec<String> = r.list(if r.has("ms") { "ms" } else { "ys" }).iter().map(|s| s.to_string()).collect();
     let xr: Vec<&str> = xs.iter().map(|s| s.as_str()).collect();
     let yr: Vec<&str> = ys.iter().map(|s| s.as_str()).collect();
     let xi = insert_nulls(&xr, r.s("ins"), true);
@@ -176,8 +180,16 @@ pub fn generate(tier: &str, rng: &mut Rng) -> (Vec<String>, bool) {
                 let t = ["f64", "of64", "oi32"][si % 3];
                 for m in (if *two { &masks2[..] } else { &masks1[..] }).iter() {
                     let mk = if *two { m.to_string() } else { m.replace('1', "b") };
+                    let masked = extra.ends_with(" ms");
+                    let extra = extra.strip_suffix(" ms").unwrap_or(extra);
                     let mut l = format!("C08ins f={} ins={} t={}{} xs={}", f, mk, t, extra, join(&xs));
-                    if *two { l.push_str(&format!(" ys={}", join(&ys))); }
+                    if masked {
+                        // flags: null where `ys` is null, else true / false alternating with the position
+                        let ms: Vec<String> = ys.iter().enumerate().map(|(i, v)| if v == "_" { "_".to_string() } else { format!("{}", (i + si) % 3 % 2 ^ 1) }).collect();
+                        l.push_str(&format!(" ms={}", join(&ms)));
+                    } else if *two {
+                        l.push_str(&format!(" ys={}", join(&ys)));
+                    }
                     out.push(l);
                 }
             }
@@ -202,7 +214,7 @@ pub fn generate(tier: &str, rng: &mut Rng) -> (Vec<String>, bool) {
         }
     }
     for (f, extra, two) in TRANSPARENT {
-        if f.starts_with("vquantile") || *f == "vmedian" || *f == "vpercentile_of" || *f == "vrank" {
+        if f.starts_with("vquantile") || *f == "vmedian" || *f == "vpercentile_of" || *f == "vrank" || extra.ends_with(" ms") {
             continue;
         }
         for _ in 0..n_enc * 2 {
@@ -218,5 +230,5 @@ pub fn generate(tier: &str, rng: &mut Rng) -> (Vec<String>, bool) {
 }
 
 pub fn rule(tier: &str) -> String {
-    format!("every null-aware catalogued entry point on the same logical series under the four encodings (f64 NaN, f32 NaN, Option<f64> None, Option<i32> None) x four output element types (f64, f32, Option<f64>, Option<i32>): all 16 cells must equal the single model result; exhaustive over {{null,0,1,3}}^len, len <= {}, windows {{1,2,3,len+1}}, min_periods {{omitted,1,w}}, plus random integral series to length 45; null-insertion transparency: for 20 aggregation / order-statistic configurations (vrank x3 on the valid entries, count_valid, vsum, vmean, vmax, vmin, vmean_var, vvar, vstd, vskew, vkurt, vcov, vcorr_pearson, vquantile x2, vmedian, vpercentile_of x2) every base series over {{null,0,1,3}} up to length 4 with 7-9 insertion masks (leading, trailing, interleaved, blocks; pairwise patterns for two-series functions): result on the base series and on the series with nulls inserted both compared with the model; mappings: every null-aware mapping of tea-map (shift, vshift, vdiff, vpct_change, ffill, bfill, fill, the three *_mask forms with 6 predicates, vclip with lower / upper bounds incl. one-sided (null) bounds, vabs) on every series over {{null,-2,0,3}} up to length {} under each null-capable encoding it accepts (f64 NaN, Option<f64> None, Option<i32> None), each cell compared with the one model result; extreme magnitudes: every nullable rolling function and the 14 moment / extremum / covariance aggregations on random series over {{null, 1, -3, +-2^600, 2^-600, +-inf}} (sums overflow, inf - inf = NaN, products underflow) under the NaN and the None encoding of the input, the two results compared token for token with each other (no model value exists there). non-trivial = len >= 2 with a non-null output.", if tier == "thorough" { 5 } else { 3 }, if tier == "thorough" { 4 } else { 3 })
+    format!("every null-aware catalogued entry point on the same logical series under the four encodings (f64 NaN, f32 NaN, Option<f64> None, Option<i32> None) x four output element types (f64, f32, Option<f64>, Option<i32>): all 16 cells must equal the single model result; exhaustive over {{null,0,1,3}}^len, len <= {}, windows {{1,2,3,len+1}}, min_periods {{omitted,1,w}}, plus random integral series to length 45; null-insertion transparency: for 23 aggregation / order-statistic configurations (vrank x3 on the valid entries, count_valid, vsum, vmean, vmax, vmin, vmean_var, vvar, vstd, vskew, vkurt, vcov, vcorr_pearson, the masked n_vsum_filter / n_sum_filter / vmean_filter with the mask as second series, vquantile x2, vmedian, vpercentile_of x2) every base series over {{null,0,1,3}} up to length 4 with 7-9 insertion masks (leading, trailing, interleaved, blocks; pairwise patterns for two-series functions): result on the base series and on the series with nulls inserted both compared with the model; mappings: every null-aware mapping of tea-map (shift, vshift, vdiff, vpct_change, ffill, bfill, fill, the three *_mask forms with 6 predicates, vclip with lower / upper bounds incl. one-sided (null) bounds, vabs) on every series over {{null,-2,0,3}} up to length {} under each null-capable encoding it accepts (f64 NaN, Option<f64> None, Option<i32> None), each cell compared with the one model result; extreme magnitudes: every nullable rolling function and the 14 moment / extremum / covariance aggregations on random series over {{null, 1, -3, +-2^600, 2^-600, +-inf}} (sums overflow, inf - inf = NaN, products underflow) under the NaN and the None encoding of the input, the two results compared token for token with each other (no model value exists there). non-trivial = len >= 2 with a non-null output.", if tier == "thorough" { 5 } else { 3 }, if tier == "thorough" { 4 } else { 3 })
 }
